@@ -503,6 +503,7 @@ impl Checker<'_> {
             self.rep.count("skipped/include");
             return None;
         }
+        self.rep.breadcrumb(|| json!({"kind": "robust", "workload": workload, "origin": show_name(origin), "origin_labels": origin.iter().map(|l| hex(l)).collect::<Vec<_>>(), "text": text}));
         let t0 = Instant::now();
         let out = hky::parse(text, origin);
         let dt = t0.elapsed();
